@@ -298,6 +298,12 @@ func checkLeftNesting(p *Prog, r *Report, gl *gramLevel, name string) {
 			if mi, isMI := prev.(*ssa.MakeInterface); isMI {
 				prev = mi.X
 			}
+			if pa, isPa := prev.(*ssa.Parameter); isPa {
+				// (the loop body as a helper that is given the node built so far)
+				if bound, has := gl.bind[pa]; has && !gl.ambig[pa] {
+					prev = bound
+				}
+			}
 			if _, isPhi := prev.(*ssa.Phi); !isPhi {
 				continue
 			}
@@ -1408,6 +1414,28 @@ func allocatedHere(p *Prog, v ssa.Value, seen map[ssa.Value]bool) bool {
 			return allocatedHere(p, sv, seen)
 		}
 		if as := p.directAllocs(x, 0); len(as) > 0 {
+			return true
+		}
+	case *ssa.Extract:
+		// the node a construction helper of the package hands back (`node, err = p.parseNext(node)`): every return of
+		// the helper hands back a node it allocated, the one it was given, or nil
+		if c, ok := x.Tuple.(*ssa.Call); ok {
+			g := c.Common().StaticCallee()
+			if g == nil || g.Blocks == nil || !p.InPkg(g) || (g.Object() != nil && g.Object().Exported()) || len(seen) > 40 {
+				return false
+			}
+			for _, ret := range returnsOf(g) {
+				if x.Index >= len(ret.Results) {
+					return false
+				}
+				rv := res(ret, x.Index)
+				if k, isK := rv.(*ssa.Const); isK && k.IsNil() {
+					continue
+				}
+				if !allocatedHere(p, rv, seen) {
+					return false
+				}
+			}
 			return true
 		}
 	case *ssa.Parameter:
